@@ -144,6 +144,64 @@ inductive SysReach : Sys → Prop where
   | init : SysReach Sys.init
   | step (x : Sys) (e : Ev) : SysReach x → (∀ p, e = Ev.upd p false → Fresh x.t p) → SysReach (x.step e)
 
+/-! ### advertisement toward the peer suppressed for a while (needToAdvertise false) -/
+
+inductive EvS where
+  | upd (p : VPath) (wd : Bool)   -- a VPN route announced / withdrawn by some source
+  | mem (m : Mem) (wd : Bool)     -- an RT-membership NLRI of the peer accepted / withdrawn
+  | restart                       -- a new session on which updates toward the peer are deferred (the
+                                  -- local speaker is restarting): nothing held, no membership yet
+  | resume                        -- the deferral ends: deferred table transfer
+deriving Repr
+
+/-- table, memberships, what the peer holds, and whether updates toward it are deferred -/
+structure SysS where
+  t   : Tbl
+  s   : Rtm
+  v   : View
+  sup : Bool
+
+def SysS.init : SysS := ⟨Tbl.empty, [], fun _ => none, false⟩
+
+def SysS.step (x : SysS) : EvS → SysS
+  | .upd p wd =>
+    ⟨x.t.update p wd, x.s,
+     if x.sup then x.v
+     else x.v.apply (onTableChange x.s (x.t.dest p.nlri) ((x.t.update p wd).dest p.nlri)), x.sup⟩
+  | .mem m wd =>
+    ⟨x.t, (rtcStepSup x.t x.s false m wd x.sup).1, x.v.apply (rtcStepSup x.t x.s false m wd x.sup).2, x.sup⟩
+  | .restart => ⟨x.t, [], fun _ => none, true⟩
+  | .resume => if x.sup then ⟨x.t, x.s, x.v.apply (catchUp x.t x.s), false⟩ else x
+
+inductive SysSReach : SysS → Prop where
+  | init : SysSReach SysS.init
+  | step (x : SysS) (e : EvS) : SysSReach x → (∀ p, e = EvS.upd p false → Fresh x.t p) → SysSReach (x.step e)
+
+/-! ### RT-membership prefixes over their whole length domain (RFC 4684 §4) -/
+
+/-- a membership NLRI as received: prefix length 0..96, origin AS, the 64 route-target bits as sent
+    (only the first `len - 32` of them are significant) -/
+structure MemL where
+  len : Nat
+  as  : Nat
+  rt  : Nat
+deriving DecidableEq, Repr
+
+/-- RFC 4684: the membership covers route-target value `k` iff their first `len - 32` bits agree;
+    a length of 32 or less (origin AS only, or the default) covers every route target -/
+def MemL.covers (m : MemL) (k : Nat) : Bool :=
+  m.len ≤ 32 || k / 2 ^ (96 - m.len) == m.rt / 2 ^ (96 - m.len)
+
+/-- what the code keeps (bgp.go decodeFromBytes + RouteTargetKey, rtc.go rtmSet.add): no route target
+    for a length of 32 or less (key 0, the wildcard), otherwise the leading bits zero-padded, as an
+    EXACT key -/
+def MemL.toMem (m : MemL) : Mem :=
+  ⟨if m.len ≤ 32 then 0 else m.rt / 2 ^ (96 - m.len) * 2 ^ (96 - m.len), m.as, 0⟩
+
+/-- RFC 4684 semantics of a set of memberships toward a route's communities -/
+def wantsRFC (ms : List MemL) (ecs : List EC) : Bool :=
+  ms.any (fun m => m.len ≤ 32) || (keys ecs).any (fun k => ms.any (fun m => m.covers k))
+
 /-- histories in which a prefix never occurs under two RDs -/
 inductive CEReachUniq (vr : Vrf) : CESys → Prop where
   | init : CEReachUniq vr CESys.init
